@@ -8,6 +8,7 @@ import ast
 from engine import astq as Q
 from engine.cfg import walk_noscope
 from engine.pysrc import Repo, F, dotted, src, calls_in
+from engine.effects import Effects, fmt as fmt_effect
 from engine.report import AnalysisError
 
 DAE = "andes/variables/dae.py"
@@ -148,6 +149,28 @@ def rule_store_flow(ctx, repo):
         return
     ok = bool(stores) and all(g.guarded_by(n, st[0], "true") for n in stores)
     ctx.check(ok, "C15.flow", "TDS.run/store-accepted", "one row per accepted step only", "rows stored for rejected steps (or none stored)", r.W())
+    # nothing that writes the solver state may run between the step's acceptance and the store of its row
+    E = Effects(repo)
+    steps = r.calls("self.itm_step")
+    heads0 = [n for n in g.nodes() if g.data(n)["kind"] == "loop"]
+    n_between, bad = 0, []
+    for s0 in steps:
+        for sn in stores:
+            for n in g.nodes():
+                if n in (s0, sn) or n in heads0 or g.data(n).get("ast") is None:
+                    continue
+                if g.reachable(s0, n, avoid=heads0) and g.reachable(n, sn, avoid=heads0):
+                    a = g.data(n)["ast"]
+                    exprs = [a.test] if g.data(n)["kind"] == "test" and hasattr(a, "test") else [a]
+                    for e in exprs:
+                        for c in [x for x in ast.walk(e) if isinstance(x, ast.Call)]:
+                            n_between += 1
+                            ws = [w for w in E.call_writes(r.ci, r.fn, c) if w[2] in ("dae.x", "dae.y", "dae.t", "<var>.v")]
+                            if ws:
+                                bad.append((n, "`%s` runs between the accepted step and dae.store(): %s" % (src(c), fmt_effect(ws[0]))))
+    ctx.check(not bad, "C15.flow", "TDS.run/pre-store-effects", "%d call(s) between step acceptance and dae.store(), none writes x/y/t "
+              "(resolved %d callee edges)" % (n_between, E.resolved_calls),
+              "; ".join(sorted(set(b[1] for b in bad))[:3]) + " -- the stored row is not what the solver held", r.W(bad[0][0]) if bad else r.W())
     t1 = [tn for tn in g.nodes() if g.data(tn)["kind"] == "test" and Q.match("config.save_every == 1", g.data(tn)["ast"].test)]
     t2 = [tn for tn in g.nodes() if g.data(tn)["kind"] == "test" and Q.match("dae.kcount % config.save_every == 0", g.data(tn)["ast"].test)]
     t0 = [tn for tn in g.nodes() if g.data(tn)["kind"] == "test" and Q.match("config.save_every != 0", g.data(tn)["ast"].test)]
